@@ -200,7 +200,11 @@ func genPool(t *rapid.T, kind string) []int {
 	for len(pool) < size {
 		v := rapid.IntRange(0, max-1).Draw(t, "id")
 		if rapid.IntRange(0, 7).Draw(t, "idcls") == 3 {
-			v = rapid.SampledFrom([]int{0, 1, max - 1, max - 2}).Draw(t, "idb")
+			special := []int{0, 1, max - 1, max - 2}
+			if kind == "blocks" {
+				special = append(special, airIDs...) // every state the registry calls air (air, cave_air, void_air)
+			}
+			v = rapid.SampledFrom(special).Draw(t, "idb")
 		}
 		if seen[v] {
 			v = (v + len(pool)*7919 + 1) % max
